@@ -446,3 +446,78 @@ Proof.
   - intros s' Es. rewrite E0 in Es. discriminate.
   - reflexivity.
 Qed.
+
+(* ---------------------------------------------------------------- the verdict through the denotation *)
+Definition Dmatch (input : list N) (ci multi : bool) (a : alt) : bool :=
+  existsb (fun m => match Da input ci multi a m with [] => false | _ => true end) (seq 0 (S (length input))).
+
+Theorem compile_grammar_D fl a input :
+  ok_a (f_xpath fl) a = true -> f_literal fl = false -> f_ws fl = false -> (N.of_nat (length input) < umax)%N ->
+  exists prog, compile true fl (show_a a) = Ok prog
+    /\ match matches prog input 0 st0 with
+       | MTrue _ => Dmatch input (f_case fl) (f_multi fl) a = true
+       | MFalse _ => Dmatch input (f_case fl) (f_multi fl) a = false
+       | MOut | MPanic _ => False
+       end.
+Proof.
+  intros Hok Hq Hx Hfit. set (pat := show_a a).
+  destruct (parse_expr_grammar pat (f_xpath fl) (f_case fl) (f_single fl) [] (f_multi fl) 0
+              (eq_refl : (N.of_nat (length (@nil N)) < umax)%N) a Hok eq_refl)
+    as (top & st' & Eparse & Hi & Hb & _ & _).
+  exists (mk_program_unopt pat top (parens st') (f_case fl) (f_multi fl) false false). split.
+  { unfold compile. rewrite Hq, Hx, Eparse. cbn [rbind]. rewrite Hi, Nat.eqb_refl, Hb. reflexivity. }
+  set (prog := mk_program_unopt pat top (parens st') (f_case fl) (f_multi fl) false false).
+  assert (Hun : p_hasbol prog = false /\ p_minlen prog = 0%N /\ p_prefix prog = None /\ p_icc prog = None /\ p_pre prog = [])
+    by (repeat split; reflexivity).
+  destruct (parse_expr_grammar pat (f_xpath fl) (f_case fl) (f_single fl) input (f_multi fl) (parens st') Hfit a Hok eq_refl)
+    as (top' & st'' & Eparse' & _ & _ & G & S0 & _).
+  rewrite Eparse in Eparse'. injection Eparse' as <- <-.
+  pose proof (fragment_no_panic_no_out prog input G Hun 0 st0 (Nat.le_0_l _) eq_refl) as NP.
+  pose proof (fragment_is_match_iff prog input G Hun 0 st0 (Nat.le_0_l _) eq_refl) as MI.
+  assert (Key : (exists m, 0 <= m <= length input /\ Rop input (p_case prog) (p_multi prog) (p_op prog) m <> [])
+                <-> Dmatch input (f_case fl) (f_multi fl) a = true).
+  { unfold Dmatch. rewrite existsb_exists. split.
+    - intros (m & Hm & Hne). exists m. split; [apply in_seq; lia|].
+      apply nonempty_in in Hne. destruct Hne as (q & Hq'). apply (S0 m q ltac:(lia)) in Hq'.
+      destruct (Da input (f_case fl) (f_multi fl) a m); [destruct Hq'|reflexivity].
+    - intros (m & Hin & Hb'). apply in_seq in Hin. exists m. split; [lia|].
+      apply nonempty_in. destruct (Da input (f_case fl) (f_multi fl) a m) as [|q t] eqn:Ee; [discriminate|].
+      exists q. apply (S0 m q ltac:(lia)). rewrite Ee. left. reflexivity. }
+  destruct (matches prog input 0 st0) as [s1|s1| |k1]; try contradiction.
+  - apply Key. apply MI. eauto.
+  - apply not_true_is_false. intros Hs. apply Key in Hs. apply MI in Hs. destruct Hs as (s'' & Hs''). discriminate.
+Qed.
+
+(* what is valid under XSD is valid under XPath *)
+Lemma ok_mono : (forall b, ok_b false b = true -> ok_b true b = true) /\ (forall a, ok_a false a = true -> ok_a true a = true).
+Proof.
+  apply branch_alt_ind; cbn [ok_b ok_a].
+  - intros cs H. exact H.
+  - intros cs cap a IHa b IHb H. apply andb_true_iff in H as [H Hb]. apply andb_true_iff in H as [H Ha].
+    apply andb_true_iff in H as [Hcs _]. rewrite Hcs, (IHa Ha), (IHb Hb), orb_true_r. reflexivity.
+  - intros cs c k rel b IHb H. apply andb_true_iff in H as [H Hb]. apply andb_true_iff in H as [H _].
+    rewrite H, (IHb Hb), orb_true_r. reflexivity.
+  - intros b IHb H. exact (IHb H).
+  - intros b IHb a IHa H. apply andb_true_iff in H as [H1 H2]. rewrite (IHb H1), (IHa H2). reflexivity.
+Qed.
+
+(* C17 on this grammar: a pattern of the common subset (capturing groups only, greedy quantifiers)
+   compiles under both dialects and the two programs give the same verdict on every input *)
+Theorem grammar_same_in_both_dialects fl fl' a input :
+  ok_a false a = true -> f_xpath fl = false -> f_xpath fl' = true ->
+  f_case fl = f_case fl' -> f_multi fl = f_multi fl' ->
+  f_literal fl = false -> f_literal fl' = false -> f_ws fl = false -> f_ws fl' = false ->
+  (N.of_nat (length input) < umax)%N ->
+  exists prog prog', compile true fl (show_a a) = Ok prog /\ compile true fl' (show_a a) = Ok prog'
+    /\ match matches prog input 0 st0, matches prog' input 0 st0 with
+       | MTrue _, MTrue _ | MFalse _, MFalse _ => True
+       | _, _ => False
+       end.
+Proof.
+  intros Hok Hx Hx' Hc Hm Hq Hq' Hw Hw' Hfit.
+  destruct (compile_grammar_D fl a input ltac:(rewrite Hx; exact Hok) Hq Hw Hfit) as (prog & E & M).
+  destruct (compile_grammar_D fl' a input ltac:(rewrite Hx'; apply (proj2 ok_mono); exact Hok) Hq' Hw' Hfit) as (prog' & E' & M').
+  exists prog, prog'. split; [exact E|]. split; [exact E'|].
+  rewrite <- Hc, <- Hm in M'.
+  destruct (matches prog input 0 st0); destruct (matches prog' input 0 st0); try contradiction; auto; congruence.
+Qed.
